@@ -34,7 +34,7 @@ NOT_UNDER_CONTRACT = {
     'C03': _NUC_FS, 'C12': ['emplace_hint / insert(hint, node) for the 32-bit FlatSet run in the thorough tier only'], 'C19': _NUC_FS[:1],
     'C04': _NUC_SS, 'C11': _NUC_SS[:1] + ['walking begin()..end() visits every element exactly once: stated per call (begin/end/erase/find results), not as a whole-traversal contract'],
     'C14': ['forward direction: relocation lemma on the three vector bases (the sets inherit it through their parts); converse direction: 60 instantiations of the static.traits unit'],
-    'C15': ['iterator categories other than pointers (forward / bidirectional / move_iterator sources); uninitialized_value_construct / uninitialized_default_construct over [first,last) (lowered; the _n forms are under contract); the [first,last) and public _n forms of copy / move / relocate are under contract for the non trivially relocatable category only; array overloads of construct_at / destroy_at'],
+    'C15': ['iterator categories other than pointers (forward / bidirectional / move_iterator sources); uninitialized_value_construct / uninitialized_default_construct over [first,last) (lowered; the _n forms are under contract); the public _n wrappers and uninitialized_copy(first,last) are under contract for the non trivially relocatable category only (the [first,last) forms of move / relocate / value_construct / default_construct also for the trivially relocatable one, relocate also for the trivially copyable one); array overloads of construct_at / destroy_at'],
     'C16': ['-O0 vs -O2 and pedantic mode are outside what a source-level contract can see; configurations: C++11, C++14 (assertions on, extras off), C++17 (NDEBUG, extras on), C++20; non-pointer iterator categories not instantiated'],
     'C18': _NUC_VEC[1:], 'C20': ['const members that are not lowered (reverse iterators, comparison operators of SmallSet, heterogeneous lookups): covered only by the static.shared_state unit (no writable static storage, no mutable member), not by a frame obligation'],
 }
@@ -207,6 +207,16 @@ def units():
         us[-1]['cfg'] = 'main14dbg'
         if m.startswith(('uninitialized_move__', 'uninitialized_relocate__')):
             us[-1]['defs']['WITH_EXT_MEM'] = '1'
+    for elem in ('ElemTR', 'ElemTC'):
+        for m, thr in [('uninitialized_move__pE_pE_pE', False), ('uninitialized_relocate__pE_pE_pE', False),
+                       ('uninitialized_value_construct__pE_pE_penable_if_is_trivial_iterator_traits_pE__value_type__value__type', True),
+                       ('uninitialized_default_construct__pE_pE_penable_if_is_trivially_default_constructible_iterator_traits_pE__value_type__value__type', True)]:
+            if elem == 'ElemTC' and not m.startswith('uninitialized_relocate'):
+                continue        # trivially copyable: these forward to std::fill / memmove-based copies (not lowered as loops of the library)
+            add('mem14.%s.%s' % (_re.sub(r'\W', '', m)[:60], ELEM_TAG[elem]), m, ['C15', 'C02', 'C09'], 2, 'StdVectorBase_E_A_u8', 'u8', elem, throws_reachable=thr)
+            us[-1]['cfg'] = 'main14dbg'
+            if m.startswith('uninitialized_move__'):
+                us[-1]['defs']['WITH_EXT_MEM'] = '1'
     DEFN = 'uninitialized_default_construct_n__pE_u8_penable_if_is_trivially_default_constructible_iterator_traits_pE__value_type__value__type'
     for elem in ('ElemNR', 'ElemTR', 'ElemTC'):
         et = ELEM_TAG[elem]
